@@ -147,6 +147,7 @@ func rulesC05(c *Ctx) {
 	runeFaceRule(c, "C05.runeface")
 	identQuoteRule(c, "C05.identquote")
 	errPosRule(c, "C05.errpos")
+	errTokenRule(c, "C05.errtoken")
 	stringEndRule(c, "C05.strend")
 	eofMarkerRule(c, "C05.eofmarker")
 	// scanning terminates: the comment skippers end at end of input
@@ -1205,12 +1206,34 @@ func eofMarkerRule(c *Ctx, rule string) {
 					if ifi, ok := pp.Instrs[len(pp.Instrs)-1].(*ssa.If); ok {
 						guard, onTrue = ifi, pp.Succs[0] == pred
 					}
+				} else if kv, _ := constant.Int64Val(constant.ToInt(k.Value)); len(pred.Preds) > 1 && len(pred.Instrs) == 1 && rune(kv) == p.eofRune() {
+					// an empty then-block of `a || b`: each test that leads here
+					for _, pp := range pred.Preds {
+						ifi, ok := pp.Instrs[len(pp.Instrs)-1].(*ssa.If)
+						if !ok {
+							continue
+						}
+						if bo2, ok := ifi.Cond.(*ssa.BinOp); ok && isNilConst(bo2.Y) && types.Identical(bo2.X.Type(), types.Universe.Lookup("error").Type()) {
+							guard, onTrue = ifi, pp.Succs[0] == pred
+							continue
+						}
+						n++
+						c.Bad(rule, "(*reader).read: end marker under another test", ifi.Cond.Pos(), "the end marker is also substituted where the underlying reader reported no error: the character read there ends the scan and the text after it is never tokenised")
+					}
 				}
 				if guard == nil {
 					continue
 				}
 				bo, ok := guard.Cond.(*ssa.BinOp)
 				if !ok || !isNilConst(bo.Y) || !types.Identical(bo.X.Type(), types.Universe.Lookup("error").Type()) {
+					// the same constant substituted under another test: a character
+					// of the text is turned into the end marker
+					if ek, isE := p.Types.Scope().Lookup("eof").(*types.Const); isE && ok {
+						if ev, _ := constant.Int64Val(constant.ToInt(ek.Val())); func() bool { v, _ := constant.Int64Val(constant.ToInt(k.Value)); return v == ev }() {
+							n++
+							c.Bad(rule, "(*reader).read: end marker under another test", bo.Pos(), "the end marker is also substituted where the underlying reader reported no error: the character read there ends the scan and the text after it is never tokenised")
+						}
+					}
 					continue
 				}
 				if (bo.Op == token.NEQ) != onTrue {
@@ -1474,4 +1497,50 @@ func errPosRule(c *Ctx, rule string) {
 		})
 	}
 	c.Floor(rule, n, 15)
+}
+
+// errTokenRule: the position quoted with "found X" is X's position.
+func errTokenRule(c *Ctx, rule string) {
+	p := c.P
+	c.Rule(rule, "in every newParseError(tokstr(tok, lit), expected, pos) the token and the position come from the same scan: an error that names the offending token but quotes the position of an earlier one points the user at the wrong column")
+	npe := p.SSAFunc(p.Func("newParseError"))
+	tokstr := p.SSAFunc(p.Func("tokstr"))
+	if npe == nil || tokstr == nil {
+		c.Unk(rule, "newParseError/tokstr", 0, "anchors not found")
+		return
+	}
+	tupleOf := func(v ssa.Value) ssa.Value {
+		if ex, ok := v.(*ssa.Extract); ok {
+			return ex.Tuple
+		}
+		return nil
+	}
+	n, bad := 0, 0
+	perFn := map[string]int{}
+	for _, f := range p.allSSAFuncs() {
+		for _, b := range f.Blocks {
+			for _, in := range b.Instrs {
+				call, ok := in.(*ssa.Call)
+				if !ok || call.Call.StaticCallee() != npe || len(call.Call.Args) != 3 {
+					continue
+				}
+				ts, ok := call.Call.Args[0].(*ssa.Call)
+				if !ok || ts.Call.StaticCallee() != tokstr || len(ts.Call.Args) != 2 {
+					continue
+				}
+				tt, pt := tupleOf(ts.Call.Args[0]), tupleOf(call.Call.Args[2])
+				if tt == nil || pt == nil {
+					continue
+				}
+				n++
+				if tt != pt {
+					bad++
+					perFn[ssaFuncName(f)]++
+					c.Bad(rule, fmt.Sprintf("%s: mismatched error #%d", ssaFuncName(f), perFn[ssaFuncName(f)]), call.Pos(), "the token named in the error was scanned at "+p.Pos(tt.Pos())+", the position quoted comes from the scan at "+p.Pos(pt.Pos()))
+				}
+			}
+		}
+	}
+	c.OK(rule, "errors examined", 0, fmt.Sprintf("%d newParseError calls with token and position from scans, %d mismatched", n, bad))
+	c.Floor(rule, n, 60)
 }
